@@ -261,8 +261,10 @@ mkops (void)
     addop (K_STATIC, 0, 3, sb, req++, "crypt(200 bytes,ab............)");
   }
   /* a crypt_ra handle that starts undersized, with and without the allocator failing: a failed call must not change what the next one returns */
-  addop (K_RA_D, 0, 0, 2, 2 * 2, "crypt_ra(D,P0,%s)", settings[2]);
-  addop (K_RA_D_ALLOCFAIL, 0, 0, 2, 9000, "crypt_ra(D,P0,%s) while the allocator fails", settings[2]);
+  /* (a method that makes no allocator or mapping request of its own: the fault operation is about crypt_ra's reallocation) */
+  int smd5 = vh_thorough ? M_MD5 : 2;
+  addop (K_RA_D, 0, 0, smd5, 2 * smd5, "crypt_ra(D,P0,%s)", settings[smd5]);
+  addop (K_RA_D_ALLOCFAIL, 0, 0, smd5, 9000, "crypt_ra(D,P0,%s) while the allocator fails", settings[smd5]);
   /* failing requests through the handle that crypt_ra has to allocate or replace first (same request numbers as the other entry points) */
   for (int s = nvalid; s < nvalid + 3; s++)
     addop (K_RA_D_BADREQ, 0, 0, s, 2 * nvalid + (s - nvalid), "crypt_ra(D,P0,%s)", settings[s]);
